@@ -11,7 +11,7 @@ from vfacts import strip, walk, is_node, must_pass_through
 from .prov import var_table
 
 RULE = 'FLAGRESET'
-FLOOR = 3
+FLOOR = 2
 ANCHORS = ['ExplicitUpwardInclusion::checkInternal']
 
 
